@@ -109,7 +109,7 @@ def main(tier):
     # A. single long runs under every limit
     for name in sorted(long_progs):
         for L in LIMITS:
-            cases.append({'steps': [{'op': 'vm', 'vm': 0, 'max_runtime_ms': L, 'loop_max': 0}, {'op': 'run', 'vm': 0, 'src': long_progs[name]}], 'cpu_ms': 120000})
+            cases.append({'steps': [{'op': 'vm', 'vm': 0, 'max_runtime_ms': L, 'loop_max': 0}, {'op': 'run', 'vm': 0, 'src': long_progs[name]}], 'cpu_ms': 40000})
             meta.append(('long', name, L))
     # B. histories: runs on one VM with virtual idle time in between
     nh = 150 if tier == 'quick' else 6000
@@ -135,13 +135,19 @@ def main(tier):
                 plan.append(('long', name, idle, len(steps) - 1))
                 if 'run-after-abort' in avoid:
                     break
-        cases.append({'steps': steps, 'cpu_ms': 240000})
+        cases.append({'steps': steps, 'cpu_ms': 60000})
         meta.append(('history', L, plan))
     # C. loop cap
     for (cap, n, body, scheduled) in loop_cases(avoid):
         cases.append({'steps': [{'op': 'vm', 'vm': 0, 'max_runtime_ms': 3000, 'loop_max': cap}, {'op': 'run', 'vm': 0, 'src': loop_src(cap, n, body, scheduled)}], 'cpu_ms': 120000})
         meta.append(('loop', cap, n, body, scheduled))
-    results = runner.run(cases)
+    # D. the limit as configured through the C API (seconds as float)
+    for name in ('while-scheduled', 'for-huge', 'recursion-call'):
+        for max_s in (0.005, 0.02, 0.4, 1.25):
+            cases.append({'steps': [{'op': 'api_create', 'h': 0, 'kind': 'full', 'max_s': max_s, 'user': 1},
+                                    {'op': 'api_call', 'h': 0, 'type': 's', 'code': LONG[name], 'call_data': 2}], 'cpu_ms': 60000})
+            meta.append(('api', name, max_s))
+    results = runner.run(cases, retry_timeouts=False)   # a run that exhausts its CPU budget is the violation this check looks for
     for mt, case, r in zip(meta, cases, results):
         chk.evaluations += 1
         replay = {'steps': case['steps']}
@@ -152,6 +158,20 @@ def main(tier):
                 chk.death_is_violation(r, 'long program %s with limit %d ms' % (name, L), replay, sig_prefix='run|' + name)
                 continue
             judge_long(chk, name, L, r['res'][1], 'program %s (limit %d ms)' % (name, L), replay)
+        elif mt[0] == 'api':
+            _, name, max_s = mt
+            chk.sig('api|%s|%g' % (name, max_s))
+            if isinstance(r, core.Death):
+                chk.death_is_violation(r, 'C API call of %s with max_runtime_seconds %g' % (name, max_s), replay, sig_prefix='api|' + name)
+                continue
+            st = r['res'][1]
+            dur_ms = (st['t1'] - st['t0']) / 1e6
+            cut = [c for c in st.get('cb', []) if 'runtime of' in c[3]]
+            chk.count('api_runs')
+            if dur_ms > max_s * 1000 + SLACK_MS:
+                chk.violation('api-overrun', 'sqfvm_call of %s ran %.2f virtual ms with max_runtime_seconds %g' % (name, dur_ms, max_s), replay)
+            elif not cut or dur_ms < max_s * 1000 - 1.5:
+                chk.violation('api-limit-not-applied', 'sqfvm_call of %s with max_runtime_seconds %g ended after %.2f ms, time-limit diagnostic delivered: %s' % (name, max_s, dur_ms, bool(cut)), replay)
         elif mt[0] == 'history':
             _, L, plan = mt
             chk.sig('history|%d|%s' % (L, '|'.join('%s:%s:%g' % (k, n, i) for k, n, i, _ in plan)))
